@@ -747,9 +747,37 @@ impl Vm {
     /// `lambda` - The lambda to emit bytecode to
     /// `expr` - The expression to quote.
     pub fn compile_quote(&mut self, lambda: &mut Lambda, expr: &Cell) -> Result<(), Error> {
+        Self::check_literal(expr)?;
         lambda.emit(OpCode::MovImmediate);
         lambda.emit(self.heap.maybe_put_cell(expr));
         lambda.emit(VCell::Acc);
+        Ok(())
+    }
+
+    /// Check Literal
+    ///
+    /// A literal is copied onto the heap when it is compiled. Procedures,
+    /// continuations and macros only exist as descriptions outside of the VM
+    /// (a datum handed to eval, or a result handed back to the VM by its
+    /// owner, may contain them) and cannot be copied back.
+    ///
+    /// # Arguments
+    /// `expr` - The literal about to be placed on the heap
+    fn check_literal(expr: &Cell) -> Result<(), Error> {
+        let mut work = vec![expr];
+        while let Some(cell) = work.pop() {
+            match cell {
+                Cell::Procedure(_) | Cell::Continuation | Cell::Macro => {
+                    return Err(InvalidSyntax(format!("{} in a literal", cell)));
+                }
+                Cell::Pair(car, cdr) => {
+                    work.push(car.as_ref());
+                    work.push(cdr.as_ref());
+                }
+                Cell::Vector(vector) => work.extend(vector.iter()),
+                _ => {}
+            }
+        }
         Ok(())
     }
 
@@ -840,6 +868,7 @@ impl Vm {
                 lambda.emit(OpCode::PushAcc);
             }
             None => {
+                Self::check_literal(rest)?;
                 lambda.emit(OpCode::PushImmediate);
                 lambda.emit(self.heap.maybe_put_cell(rest));
             }
